@@ -118,8 +118,8 @@ var mathFuncs = map[string]struct {
 }
 
 func (t *fnTr) call(e *ast.CallExpr, env *Env) (val, error) {
-	if e.Ellipsis != token.NoPos {
-		return val{}, t.errf(e, "unsupported variadic call")
+	if e.Ellipsis != token.NoPos && !t.callsDeclaredFunc(e, env) {
+		return val{}, t.errf(e, "unsupported variadic call (xs... only in a call of a declared variadic function of the repository)")
 	}
 	fun := e.Fun
 	// explicit instantiation f[float64](...)
@@ -414,6 +414,15 @@ func (t *fnTr) applyDecl(ref, recv string, fd *ast.FuncDecl, p *Package, e *ast.
 		parts = append(parts, recv)
 	}
 	parts = append(parts, args...)
+	qual := ref
+	if !strings.Contains(qual, ".") {
+		qual = t.mod.Name + "." + ref
+	}
+	if t.w.Panicky[qual] {
+		if err := t.notePanickingCall(ref, parts[1:], e); err != nil {
+			return val{}, err
+		}
+	}
 	if len(parts) == 1 {
 		return val{ref, rt}, nil
 	}
@@ -430,9 +439,13 @@ func (t *fnTr) args(e *ast.CallExpr, fd *ast.FuncDecl, env *Env) ([]string, erro
 	}
 	sub := &fileCtx{w: t.w, mod: t.mod, pkg: p, file: p.FileOf[fd], imps: fileImports(p.FileOf[fd])}
 	var pts []Type
-	for _, f := range fd.Type.Params.List {
+	variadic := false
+	for i, f := range fd.Type.Params.List {
 		if _, ok := f.Type.(*ast.Ellipsis); ok {
-			return nil, t.errf(e, "unsupported call of variadic function %s", fd.Name.Name)
+			if i != len(fd.Type.Params.List)-1 || len(f.Names) > 1 {
+				return nil, t.errf(e, "unsupported call of variadic function %s", fd.Name.Name)
+			}
+			variadic = true // resolveType: the variadic parameter is a list
 		}
 		pt, ptr, err := sub.resolveType(f.Type)
 		if err != nil {
@@ -449,7 +462,60 @@ func (t *fnTr) args(e *ast.CallExpr, fd *ast.FuncDecl, env *Env) ([]string, erro
 			pts = append(pts, pt)
 		}
 	}
-	return t.argVals(e.Args, pts, env, e)
+	if !variadic {
+		if e.Ellipsis != token.NoPos {
+			return nil, t.errf(e, "unsupported variadic call: %s is not variadic", fd.Name.Name)
+		}
+		return t.argVals(e.Args, pts, env, e)
+	}
+	if e.Ellipsis != token.NoPos {
+		// f(a, xs...): the list is passed as it is
+		return t.argVals(e.Args, pts, env, e)
+	}
+	// f(a, x1, ..., xn): the trailing arguments form a new list
+	nfix := len(pts) - 1
+	if len(e.Args) < nfix {
+		return nil, t.errf(e, "call with %d arguments where at least %d are expected", len(e.Args), nfix)
+	}
+	out, err := t.argVals(e.Args[:nfix], pts[:nfix], env, e)
+	if err != nil {
+		return nil, err
+	}
+	et := pts[nfix].Elems[0]
+	var elts []string
+	for i, a := range e.Args[nfix:] {
+		v, err := t.expr(a, env)
+		if err != nil {
+			return nil, err
+		}
+		if !v.ty.eq(et) {
+			return nil, t.errf(a, "argument %d has type %s where %s is expected", nfix+i+1, v.ty, et)
+		}
+		elts = append(elts, v.code)
+	}
+	if len(elts) == 0 {
+		return append(out, "(@nil "+paren(et.coq(t.mod))+")"), nil
+	}
+	return append(out, "["+strings.Join(elts, "; ")+"]"), nil
+}
+
+// callsDeclaredFunc: the callee is a plain function declared in this package or in another package of the
+// repository (the only calls whose parameter list, hence variadic-ness, the translator knows).
+func (t *fnTr) callsDeclaredFunc(e *ast.CallExpr, env *Env) bool {
+	switch f := e.Fun.(type) {
+	case *ast.Ident:
+		_, ok := t.pkg.Funcs[f.Name]
+		return ok && env.lookup(f.Name) == nil
+	case *ast.SelectorExpr:
+		id, ok := f.X.(*ast.Ident)
+		if !ok || env.lookup(id.Name) != nil {
+			return false
+		}
+		path, ok := t.imps[id.Name]
+		return ok && path != "math" && !strings.HasPrefix(path, "github.com/EliCDavis/vector") &&
+			(strings.HasPrefix(path, t.w.ModulePath+"/") || path == t.w.ModulePath)
+	}
+	return false
 }
 
 func (t *fnTr) argVals(args []ast.Expr, pts []Type, env *Env, at ast.Node) ([]string, error) {
